@@ -4,13 +4,12 @@ import PycsepVerif.Model.Gridding
   what it leaves behind on the (shared) region object, and of the accumulation in
   `CatalogForecast.get_expected_rates` (csep/core/forecasts.py:703-726) — property C03.
 
-    magnitude_counts(mag_bins, retbins)   catalogs.py:721-744   → `resolveMc`, `gcall (.mc …)`
+    magnitude_counts(mag_bins, retbins)   catalogs.py:721-744   → `resolveMc`, `gcall (.mc …)`   (with fix D41, 0529988)
         mag_bins given                       → those bins, region untouched
-        region carries bins                  → `self.region.magnitudes`
-        region object has NO attribute `magnitudes` (AttributeError, :725) → `CSEP_MW_BINS`, which is INSTALLED on the region
-                                               (`self.region.magnitudes = mag_bins`, `num_mag_bins = len(mag_bins)`, :727-729)
-        `region.magnitudes is None`          → TypeError of `len(None)` (:731)               [candidate W-C03-1]
-        `self.region is None`                → AttributeError inside the handler (:728)     [candidate W-C03-1]
+        `getattr(self.region, 'magnitudes', None)` is not None → the bins bound to the region
+        otherwise (no region / no attribute / None) → `CSEP_MW_BINS`, written onto the region object if there is one
+                                               (`self.region.magnitudes = mag_bins`, `num_mag_bins = len(mag_bins)`)
+        before D41 (`resolveMcD41`): `region.magnitudes is None` → TypeError of `len(None)`, `self.region is None` → AttributeError
         retbins=True                         → `(mag_bins, out)`
     spatial_magnitude_counts(mag_bins)    catalogs.py:767-775   → `resolveSmc`
         no region → CSEPCatalogException (:768); attribute missing → AttributeError (:770, before `mag_bins` is looked at);
@@ -38,11 +37,19 @@ inductive CallErr where
   | config      -- no region / no bins to grid against
 deriving Repr, DecidableEq
 
-/-- bins used by `magnitude_counts` and the state of the region afterwards (catalogs.py:721-729) -/
-def resolveMc (dflt : List Rat) : Option (List Rat) → Bound → Except CallErr (List Rat × Bound)
+/-- bins used by `magnitude_counts` and the state of the region afterwards (catalogs.py:721-729, with fix D41) -/
+def resolveMc (dflt : List Rat) : Option (List Rat) → Bound → List Rat × Bound
+  | some e, b => (e, b)
+  | none, .bins e => (e, .bins e)
+  | none, .absent => (dflt, .bins dflt)          -- default bins installed on the region
+  | none, .unset => (dflt, .bins dflt)           -- likewise (D41)
+  | none, .noRegion => (dflt, .noRegion)         -- no region to write them to (D41)
+
+/-- the code BEFORE fix D41 -/
+def resolveMcD41 (dflt : List Rat) : Option (List Rat) → Bound → Except CallErr (List Rat × Bound)
   | some e, b => .ok (e, b)
   | none, .bins e => .ok (e, .bins e)
-  | none, .absent => .ok (dflt, .bins dflt)       -- default bins installed on the region
+  | none, .absent => .ok (dflt, .bins dflt)
   | none, .unset => .error .config                -- `len(None)`
   | none, .noRegion => .error .config             -- `None.magnitudes = …` inside the handler
 
@@ -89,11 +96,9 @@ def ofExcept {α} (f : α → GOut) : Except Err α → GOut
     drops it); `dflt` = `CSEP_MW_BINS`. Returns the result and the state of the region object afterwards. -/
 def gcall (quad : Bool) (ncell : Nat) (dflt : List Rat) (evs : Located) (b : Bound) : GCall → GOut × Bound
   | .mc ex rb =>
-    match resolveMc dflt ex b with
-    | .error e => (.err e, b)
-    | .ok (edges, b') =>
-      let v := magnitudeCounts edges.length ((toEvs edges evs).map (·.bin))
-      (if rb then .vecBins edges v else .vec v, b')
+    let (edges, b') := resolveMc dflt ex b
+    let v := magnitudeCounts edges.length ((toEvs edges evs).map (·.bin))
+    (if rb then .vecBins edges v else .vec v, b')
   | .smc ex =>
     match resolveSmc ex b with
     | .error e => (.err e, b)
